@@ -433,6 +433,68 @@ class ClassBuilder:
             "conns": self.conns, "blocks": self.blocks, "uu": self.uu}
 
 
+def build_variant(draw, name, ports, opts, pool, depth, rdwr=False, once=False):
+  """a class with exactly the given port list (same names/types/directions) and freshly drawn internals"""
+  cb = ClassBuilder(draw, name, opts, pool, depth)
+  d = draw
+  cb.n = 100                                   # keep internal names apart from the port names
+  for n, dr, t in ports:
+    cb.ports.append([n, dr, t])
+    if dr == "in": cb.avail.append((mkref(n), t))
+  if opts["reset"] and d(st.integers(0, 3)) == 0:
+    cb.avail.append((mkref("reset"), ["b", 1]))
+  outs = [(n, t) for n, dr, t in ports if dr == "out"]
+  regs = []
+  reg_outs = set()
+  if opts["ff"]:
+    for n, t in outs:
+      if d(st.integers(0, 3)) == 0:
+        regs.append((mkref(n), t)); cb.avail.append((mkref(n), t)); reg_outs.add(n)
+    for _ in range(d(st.integers(0, 2))):
+      t = cb.any_type()
+      n = cb.new_signal(t, force_wire=True)
+      regs.append((mkref(n), t)); cb.avail.append((mkref(n), t))
+  for _ in range(d(st.integers(0, opts["max_steps"]))):
+    if d(st.integers(0, 3)) == 0 and depth > 0 and pool: cb.step_child()
+    else:
+      # internal wires only
+      t = cb.any_type()
+      n = cb.new_signal(t, force_wire=True)
+      cb.drive(cb.parts_of(n, t))
+      cb.avail.append((mkref(n), t))
+  for n, t in outs:
+    if n in reg_outs: continue
+    cb.drive(cb.parts_of(n, t))
+  cb.regs = regs
+  if regs:
+    k = d(st.integers(1, min(3, len(regs))))
+    for g in [regs[i::k] for i in range(k)]:
+      cb.blocks.append(cb.ff_block(g, cb.fresh("ff")))
+  cls = {"ports": cb.ports, "wires": cb.wires, "children": cb.children, "conns": cb.conns,
+         "blocks": cb.blocks, "uu": cb.uu, "rdwr": []}
+  combs = [b for b in cls["blocks"] if b["kind"] == "comb"]
+  if rdwr and combs:
+    # semantically neutral value constraints: WR(x) < U(b) for a block b that reads x, U(a) < RD(x) for a writer a
+    from vf.ref.rtl_eval import Model
+    for b in combs:
+      reads = []
+      def walk(x):
+        if isinstance(x, dict) and "sig" in x:
+          if x["inst"] == "" and not x["fld"] and x["sl"] is None: reads.append(x["sig"])
+        elif isinstance(x, list):
+          for y in x: walk(y)
+      walk([s_[2:] if s_[0] in ("assign", "assign_bit", "assign_struct") else s_ for s_ in b["stmts"]])
+      written_elsewhere = {w["sig"] for b2 in combs if b2 is not b for s_ in b2["stmts"]
+                           if s_[0] == "assign" and s_[1]["inst"] == "" and not s_[1]["fld"] and s_[1]["sl"] is None
+                           for w in [s_[1]]}
+      for sig in sorted(set(reads) & written_elsewhere):
+        if d(st.booleans()): cls["rdwr"].append(["WR", sig, "<", b["name"]])
+        break
+  if once and combs and d(st.booleans()):
+    d(st.sampled_from(combs))["kind"] = "once"
+  return cls
+
+
 def _indices(dims):
   import itertools
   return itertools.product(*[range(k) for k in dims])
